@@ -174,10 +174,7 @@ class MinFlowDecompCycles(walkmodel.AbstractWalkModelDiGraph):
         self._is_solved = False
 
         # Get the max flow value on an edge
-        self.w_max = max(self.G.edges[edge][self.flow_attr] 
-                          for edge in self.G.edges 
-                          if self.flow_attr in self.G.edges[edge]
-                          and edge not in self.edges_to_ignore) if self.G.number_of_edges() > 0 else 0
+        self.w_max = self._get_w_max()
 
         # Internal variables
         self._generating_set = None
@@ -211,6 +208,8 @@ class MinFlowDecompCycles(walkmodel.AbstractWalkModelDiGraph):
         self._given_weights_model = None
         self._mingenset_model = None
         self._source_flow = None
+        # (the largest flow value bounds the multiplicities of the generating-set lower bound: read it from the graph as it is now)
+        self.w_max = self._get_w_max()
         utils.logger.info(f"{__name__}: starting to solve the MinFlowDecompCycles model for graph id = {utils.fpid(self.G)}")
 
         if self.optimization_options.get("optimize_with_guessed_weights", MinFlowDecompCycles.optimize_with_given_weights):            
@@ -274,6 +273,12 @@ class MinFlowDecompCycles(walkmodel.AbstractWalkModelDiGraph):
                 return False
 
         return False
+
+    def _get_w_max(self):
+        return max((self.G.edges[edge][self.flow_attr]
+                    for edge in self.G.edges
+                    if self.flow_attr in self.G.edges[edge]
+                    and edge not in self.edges_to_ignore), default=0)
 
     def _get_source_flow(self):
         if self._source_flow is None:
